@@ -449,6 +449,10 @@ func c14RouterAddress(s gen.Signed, d string) c14Outcome {
 		style = strings.Repeat("s", 256)
 	case "option-value-256-bytes":
 		opts["big"] = strings.Repeat("v", 256)
+	case "options-body-65535", "options-body-65536", "options-body-65537", "options-body-65540", "options-body-65700", "options-body-66000":
+		var n int
+		fmt.Sscanf(d, "options-body-%d", &n)
+		opts = c14BigMap(n)
 	}
 	v, err := router_address.NewRouterAddress(a.Cost, time.Time{}, style, opts)
 	o.ctorErr = err
@@ -468,7 +472,8 @@ var c14Menus = map[string][]c14Defect{
 	"RouterInfo":       {{"none", false}, {"no-addresses", false}, {"published-zero", false}},
 	"LeaseSet":         {{"none", false}, {"17-leases", true}, {"signing-key-of-other-type", false}},
 	"KeysAndCert":      {{"none", false}, {"nil-crypto-key", false}, {"nil-signing-key", false}, {"padding-one-byte-short", true}, {"crypto-key-of-other-type", true}, {"signing-key-of-other-type", true}},
-	"RouterAddress":    {{"none", false}, {"empty-style", true}, {"style-256-bytes", false}, {"option-value-256-bytes", false}},
+	"RouterAddress":    {{"none", false}, {"empty-style", true}, {"style-256-bytes", false}, {"option-value-256-bytes", false},
+		{"options-body-65535", false}, {"options-body-65536", false}, {"options-body-65537", false}, {"options-body-65540", false}, {"options-body-65700", false}, {"options-body-66000", false}},
 }
 
 func c14Build(fam string, s gen.Signed, aux int, d string) c14Outcome {
@@ -521,6 +526,30 @@ func c14One(r *core.Run, fam string, s gen.Signed, aux int, desc string, vector 
 	}
 }
 
+// c14BigMap returns a Go map whose mapping encoding has exactly body bytes after the size field
+// (127 or 128 pairs of 255-byte keys and values plus one pair that makes up the difference).
+func c14BigMap(body int) map[string]string {
+	full := 127
+	if body-full*514 > 514 {
+		full = 128
+	}
+	rest := body - full*514
+	if rest < 5 || rest > 514 {
+		panic(fmt.Sprintf("c14BigMap: body %d not expressible", body))
+	}
+	m := map[string]string{}
+	for i := 0; i < full; i++ {
+		m[fmt.Sprintf("%03d", i)+strings.Repeat("k", 252)] = strings.Repeat("v", 255)
+	}
+	vl := rest - 5
+	if vl > 255 {
+		vl = 255
+	}
+	kl := rest - 4 - vl
+	m[strings.Repeat("z", kl)] = strings.Repeat("w", vl)
+	return m
+}
+
 // c14Small: signature, certificate, mapping constructors.
 func c14Small(r *core.Run) {
 	for t := 0; t <= 12; t++ {
@@ -571,6 +600,27 @@ func c14Small(r *core.Run) {
 			r.Violate("C14|data.GoMapToMapping|valid-value-no-clean-roundtrip", fmt.Sprintf("mapping %s: %s", gen.MappingNames[i], why), core.Case{Kind: "small", Args: map[string]string{"what": "mapping"}})
 		}
 		r.Distinct([]byte("map"), []byte{byte(i)})
+	}
+	// mappings around the 16-bit size limit: whatever the constructor accepts must validate and round-trip
+	for _, body := range []int{65300, 65534, 65535, 65536, 65537, 65538, 65540, 65600, 65700, 65791, 65792, 65800, 66000, 66306} {
+		r.Evaluations.Add(1)
+		mp, err := data.GoMapToMapping(c14BigMap(body))
+		cs := core.Case{Kind: "small", Args: map[string]string{"what": "mapping"}}
+		if err != nil {
+			if body <= 65535 {
+				r.Violate("C14|data.GoMapToMapping|refuses-a-mapping-within-the-size-limit", fmt.Sprintf("body of %d bytes: %v", body, err), cs)
+			}
+			continue
+		}
+		r.Traces.Add(1)
+		if verr := mp.Validate(); verr != nil {
+			r.Violate("C14|data.GoMapToMapping|constructor-accepts-what-validate-rejects", fmt.Sprintf("mapping with a %d-byte body: %v", body, verr), cs)
+			continue
+		}
+		if why, ok := c14RoundTrip("Mapping", 0, func() ([]byte, error) { return mp.Data(), nil }); !ok {
+			r.Violate("C14|data.GoMapToMapping|valid-value-no-clean-roundtrip[size-limit]", fmt.Sprintf("mapping with a %d-byte body: %s", body, why), cs)
+		}
+		r.Distinct([]byte("bigmap"), []byte{byte(body >> 8), byte(body)})
 	}
 }
 
